@@ -927,7 +927,62 @@ def unit_bounded_from_string(U):
         cases, fails, distinct=len(distinct))
 
 
+def unit_bounded_warm_parent(U):
+    """The processes that import at the same time may be forked by a process that has itself imported before (a worker pool
+    started by a script that already built a database): whatever that first import left behind in the parent - open handles,
+    cached objects - the children inherit it, and each of them must still build the solitary run's database"""
+    W = World(20 if not U.thorough else 40, variants=(0, 1))
+    fails, cases, distinct = [], 0, set()
+    counts = [2, 6] if not U.thorough else [2, 6, 17, 32]
+    try:
+        own = W.fresh("parent")
+        saved = (os.environ.get("TMPDIR"), tempfile.tempdir)
+        _use_tmp(W.shared)
+        sys.stderr.flush()
+        keep2 = os.dup(2)                        # the GTF importer writes a progress line to stderr unconditionally
+        devnull = os.open(os.devnull, os.O_WRONLY)
+        os.dup2(devnull, 2)
+        try:
+            for fmt in ("gff3", "gtf"):
+                for target in (":memory:", os.path.join(own, "first_%s.db" % fmt)):
+                    db = gffutils.create_db(W.inputs[(fmt, 1)], target)
+                    db.update(W.inputs[(fmt, 0)], merge_strategy="replace", make_backup=False)
+                    db.conn.close()
+        finally:
+            os.dup2(keep2, 2)
+            os.close(keep2)
+            os.close(devnull)
+            if saved[0] is None:
+                os.environ.pop("TMPDIR", None)
+            else:
+                os.environ["TMPDIR"] = saved[0]
+            tempfile.tempdir = saved[1]
+        check_tmp(W, (), {"step": "imports of the parent process before forking"}, fails)
+        for n in counts:
+            for scheme in ("onedir", "memory"):
+                for offs_name in ("together", "staggered"):
+                    picks = [(("gff3", "gff3", "gtf")[i % 3], (i // 3) % 2, {}) for i in range(n)]
+                    offs = [0.0] * n if offs_name == "together" else [0.02 * i for i in range(n)]
+                    jobs, allowed = make_jobs(W, picks, scheme, offs)
+                    case = {"processes": n, "outputs": scheme, "offsets": offs_name, "history": "the forking process ran GFF3 and GTF imports and updates before forking",
+                            "n_genes": W.n_genes, "jobs": [job_case(W, j) for j in jobs]}
+                    results = run_round(W, jobs)
+                    cases += 1
+                    distinct.add((n, scheme, offs_name))
+                    check_jobs(W, jobs, results, case, fails)
+                    check_tmp(W, allowed, case, fails)
+        fails.extend(W.selfcheck)
+    finally:
+        W.close()
+    U.bounded_result(
+        "C20.bounded.forked_after_parent_import",
+        "n concurrent create_db processes forked by a process that imported before: every database == the solitary run's; shared temp dir as before",
+        "process counts %s x {onedir, memory} x {together, staggered}, 2 GFF3 : 1 GTF inputs of 2 gene models (%d genes)" % (counts, W.n_genes),
+        cases, fails, distinct=len(distinct))
+
+
 UNITS = [
+    ("bounded.forked_after_parent_import", unit_bounded_warm_parent),
     ("bounded.concurrent_imports", unit_bounded_imports),
     ("bounded.forced_interleaving", unit_bounded_interleave),
     ("bounded.concurrent_readers", unit_bounded_readers),
